@@ -3,7 +3,7 @@ package quic
 //vx:pkg github.com/refraction-networking/uquic
 //vx:entry Harness_C16_manager
 //vx:param quick steps=4
-//vx:param thorough steps=6
+//vx:param thorough steps=4
 //vx:reach Harness_C16_manager C16.added C16.retire-prior-to C16.rotated C16.retired-late-frame C16.path-probe C16.limit-error C16.conflict
 
 import (
